@@ -344,7 +344,15 @@ impl<'a> Worker<'a> {
             generator_time,
         );
 
-        self.resources.write(work_item.data.output(), &lua_code)?;
+        self.resources
+            .write(work_item.data.output(), &lua_code)
+            .map_err(|err| {
+                // the error may only name a parent directory that could not be created
+                DarkluaError::from(err).context(format!(
+                    "while writing `{}`",
+                    work_item.data.output().display()
+                ))
+            })?;
 
         self.cache
             .link_source_to_output(normalized_source, work_item.data.output());
